@@ -21,8 +21,8 @@ LEVEL_TEXT = ("Values of 28 types (all arithmetic types, strings with NULs, vect
 LEVEL_NOTE = ("Sampling, not proof: 28 fixed types stand for the template universe; values are small (archives mostly < 1 KiB). The "
               "strict oracle (cppcms accepts only what the reference decoder accepts) is stronger than pure memory safety and trusts "
               "the 300-line reference codec; json text is parsed by cppcms' own parser on both sides (json is C11's subject); json "
-              "numbers are restricted to exactly printable ones. Two known defect classes are excluded by construction until fixed "
-              "(chunk overrunning the end by 1..3 bytes; empty POD vector load = memcpy(NULL,..,0)).")
+              "numbers are restricted to exactly printable ones. The class of the defect this check found (a chunk overrunning "
+              "the end of the archive by 1..3 bytes was accepted; fixed in 867fed3) is searched again and its regression case runs on every run.")
 DESIGN_REF = "3/C19"
 RULE = ("value: (type id of 28, <=900 (thorough 2400) source bytes) -> value; non-trivial when the value has dynamic nesting depth >= 2 "
         "or an empty container or a string containing NUL; distinct = hash(type, reference encoding). damage: every truncation of "
@@ -36,7 +36,6 @@ RULE = ("value: (type id of 28, <=900 (thorough 2400) source bytes) -> value; no
 HERE = os.path.dirname(os.path.dirname(os.path.abspath(__file__)))
 KNOWN = {  # signature -> (class name for C19_INCLUDE_KNOWN, regression case)
     "archive:chunk-past-end-accepted": ("overrun", "c19_archive.known-overrun.case"),
-    "archive:load-empty-pod-vector-memcpy-null": ("nullcpy", "c19_archive.known-empty-pod-vector.case"),
 }
 
 
@@ -56,7 +55,7 @@ def known_state():
                 if k.get("status") == "fixed":
                     include.add(cls)
     if "all" in include:
-        include = {"overrun", "nullcpy"}
+        include = {"overrun"}
     regress += [case for (cls, case) in KNOWN.values() if cls in include]
     return ",".join(sorted(include)), sorted(set(regress))
 
@@ -105,6 +104,7 @@ def floor(tier):
 def run(tier, seed):
     inc, regress = known_state()
     return verif.standard(ID, tier, seed, specs(), units, RULE, level=LEVEL, floor=floor, fuzz_names=["c19_fuzz"],
+                          replay_env={"C19_INCLUDE_KNOWN": inc},   # confirmation replays must search the same classes as the run
                           assumptions=["the reference codec in harness/c19_universe.h implements the archive format (u32 host-endian length + bytes per chunk; "
                                        "size_t count + elements; POD vector = one chunk; pointer = 1-byte empty flag + value; json = text chunk)",
                                        "ASan/UBSan report reads outside the archive buffer; independent of that, every accepted input must decode identically in the reference decoder",
@@ -113,15 +113,16 @@ def run(tier, seed):
 
 
 def replay(path):
-    return verif.standard_replay(specs(), path, fuzz_names=["c19_fuzz"])
+    return verif.standard_replay(specs(), path, fuzz_names=["c19_fuzz"], replay_env={"C19_INCLUDE_KNOWN": known_state()[0]})
 
 
 # sensitivity mutations (tools/sens.py -w 4 C19); 0-2 are DESIGN.md's S list
 MUTATIONS = [
-    dict(name="next_chunk_size-no-upper-bound", edits=[("src/archive.cpp", "if(ptr_ + size < ptr_ || ptr_ + size >=buffer_.size())", "if(ptr_ + size < ptr_)")]),
+    dict(name="next_chunk_size-no-upper-bound", edits=[("src/archive.cpp", "if(size > buffer_.size() - ptr_ - 4)", "if(ptr_ + size < ptr_)")]),
     dict(name="pod-vector-load-n+1", edits=[("cppcms/archive_traits.h", "\t\t\tv.resize(n);\t\t\t\t\\\n", "\t\t\tv.resize(n+1);\t\t\t\t\\\n")]),
     dict(name="read_chunk-len-mismatch-lt", edits=[("src/archive.cpp", "if(next!=len)", "if(next<len)")]),
-    dict(name="next_chunk_size-bound-gt", edits=[("src/archive.cpp", "ptr_ + size >=buffer_.size())", "ptr_ + size > buffer_.size())")]),
+    dict(name="revert-fix-867fed3-bound-ignores-length-field", edits=[("src/archive.cpp", "if(size > buffer_.size() - ptr_ - 4)", "if(ptr_ + size < ptr_ || ptr_ + size >=buffer_.size())")]),
+    dict(name="next_chunk_size-bound-off-by-one", edits=[("src/archive.cpp", "if(size > buffer_.size() - ptr_ - 4)", "if(size > buffer_.size() - ptr_ - 3)")]),
     dict(name="header-check-le-4-rejects-trailing-empty-chunk", edits=[("src/archive.cpp", "if(buffer_.size() - ptr_ < 4) {", "if(buffer_.size() - ptr_ <= 4) {")]),
     dict(name="header-check-dropped", edits=[("src/archive.cpp", "if(buffer_.size() - ptr_ < 4) {", "if(false) {")]),
     dict(name="container-load-no-clear", edits=[("cppcms/archive_traits.h", "\t\t\tarchive_traits<size_t>::load(n,a);\n\t\t\tv.clear();\n\t\t\tstd::insert_iterator", "\t\t\tarchive_traits<size_t>::load(n,a);\n\t\t\tstd::insert_iterator")]),
